@@ -530,10 +530,20 @@ def schema_order_cases(tier):
         "Wrapper": {"type": "object", "properties": {"e": {"$ref": "#/components/schemas/BaseApiError"}}},
     }
     out = []
-    for name, b in (("pets", base), ("errors", base2), ("unions", _UNION_FAMILY)):
+    for name, b in (("pets", base), ("errors", base2), ("unions", _UNION_FAMILY), ("case-tied-names", _CASE_FAMILY)):
         for perm in itertools.permutations(list(b)):
             out.append({"family": name, "order": list(perm)})
     return out
+
+
+# class names that differ only in case (and one unrelated): sorted output must not fall back on document order for ties
+_CASE_FAMILY = {
+    "IPhone": {"type": "object", "properties": {"a": {"type": "string"}, "other": {"$ref": "#/components/schemas/Iphone"}}},
+    "Iphone": {"type": "object", "properties": {"b": {"type": "integer"}}},
+    "Tablet": {"type": "object", "properties": {"both": {"oneOf": [{"$ref": "#/components/schemas/IPhone"}, {"$ref": "#/components/schemas/Iphone"}]}}},
+    "Mode": {"type": "string", "enum": ["x", "y"]},
+}
+_CASE_TREES = {}
 
 
 # forward references below the top level of a component (array member of a union, nested union, additionalProperties)
@@ -566,7 +576,18 @@ def schema_order(case):
             "BaseApiError": {"allOf": [{"$ref": "#/components/schemas/ApiError"}]},
             "Wrapper": {"type": "object", "properties": {"e": {"$ref": "#/components/schemas/BaseApiError"}}}},
         "unions": _UNION_FAMILY,
+        "case-tied-names": _CASE_FAMILY,
     }[case["family"]]
+    if case["family"] == "case-tied-names":
+        # compared byte for byte (whole tree), against the declaration order
+        if "base" not in _CASE_TREES:
+            _CASE_TREES["base"] = _tree(_base(schemas=dict(fam)))
+        f0, e0 = _CASE_TREES["base"]
+        f1, e1 = _tree(_base(schemas={k: fam[k] for k in case["order"]}))
+        if e0 or e1:
+            return f"order {case['order']}: diagnostics for a valid document: {[(e.header, (e.detail or '')[:60]) for e in (e0 or e1)][:1]}"
+        diff = sorted(k for k in set(f0) | set(f1) if f0.get(k) != f1.get(k))
+        return f"order {case['order']}: generated files {diff[:3]} differ from the declaration order" if diff else None
     doc = _base(schemas={k: fam[k] for k in case["order"]})
     try:
         data = _parse(doc)
